@@ -12,15 +12,23 @@ def parseStrTok (s : String) : Option (Char × Nat) :=
     some (if n = 0 then 'a' else c, n)
   | [] => none
 
+/-- an Int token: decimal, or `p<k>x<c>` = 2^k + c -/
+def parseIntTok (s : String) : Option Int :=
+  if s.startsWith "p" then
+    match (s.drop 1).toString.splitOn "x" with
+    | [k, c] => do some ((2 : Int) ^ (← k.toNat?) + (← c.toInt?))
+    | _ => none
+  else s.toInt?
+
 def parseElem (t : String) (s : String) : Option Elem :=
   match t with
-  | "I" => s.toInt?.map .int
+  | "I" => (parseIntTok s).map .int
   | "S" => (parseStrTok s).map fun (c, n) => .str c n
   | "A" => if s == "e" then some (.arr []) else ((s.splitOn ".").mapM String.toInt?).map .arr
   | "P" =>
     match s.splitOn "_" with
     | [a, b] => do
-      let a ← a.toInt?
+      let a ← parseIntTok a
       let (c, n) ← parseStrTok b
       some (.p a c n)
     | _ => none
